@@ -14,7 +14,7 @@
 
 enum { S_READ, S_READ2, S_READ_BARRIER_READ, S_CLOSE_INFLIGHT, S_STOP_INFLIGHT, S_READ_AFTER_CLOSE, S_WRITE, S_FILE_RANDOM, S_FILE_STREAM, S_INTERVAL };
 typedef struct { int kind; const char *name; int n; int chunks[5]; size_t len; size_t hw, lw; } scen;
-#define MAXSC 160
+#define MAXSC 200
 static scen SC[MAXSC];
 static int NSC;
 static char g_names[MAXSC][160];
@@ -57,6 +57,10 @@ static void build(void)
 	add(S_FILE_RANDOM, "random-access channel on a regular file 'abcdef': read offset 4 length 5 (crosses EOF)", 6, NULL, 5, 2, INF);
 	add(S_FILE_STREAM, "stream channel on a regular file 'abcdef': read SIZE_MAX", 6, NULL, INF, 4, INF);
 	for (int c = 0; c < 4; c++) add(S_INTERVAL, "stream read with a 1 ms interval and low water 2", 3, C3[c], INF, INF, 2);
+	// bounded reads with intermediate deliveries (low water 1) and surplus bytes on the descriptor
+	for (int c = 0; c < 4; c++) add(S_READ, "bounded stream read with low water 1", 3, C3[c], 2, INF, 1);
+	for (int c = 0; c < 8; c++) add(S_READ, "bounded stream read with low water 1", 4, C4[c], 3, INF, 1);
+	for (int c = 0; c < 8; c += 3) add(S_READ2, "two reads of 2 bytes back to back, low water 1", 4, C4[c], 2, INF, 1);
 }
 
 // ---- per-operation records -----------------------------------------------------------------
